@@ -10,7 +10,7 @@ meta = json.load(open(os.path.join(d, "meta.json")))
 tmp = tempfile.mkdtemp(prefix="sfval.")
 wt = os.path.join(tmp, "wt")
 def sh(cmd, cwd=wt, timeout=900):
-    p = subprocess.run(cmd, shell=True, cwd=cwd, env=env, stdout=subprocess.PIPE, stderr=subprocess.STDOUT, text=True, timeout=timeout)
+    p = subprocess.run(cmd, shell=True, cwd=cwd, env=env, stdout=subprocess.PIPE, stderr=subprocess.STDOUT, text=True, errors="replace", timeout=timeout)
     return p.returncode, p.stdout
 res = {"dir": d, "property": meta.get("property")}
 try:
